@@ -21,6 +21,13 @@ def _run(rules):
     return run
 
 
+def _raii_only(fx, col):
+    sub = Collector(col.cfg)
+    R.rule_cover_all(fx, sub)
+    col.obs.extend(o for o in sub.obs if o.rule in ('RAII-SPAN',) or (o.rule == 'FLOOR' and 'pay walks' in o.key) or o.rule == 'ANCHOR')
+
+
+
 PROPERTIES = {}
 NOT_APPLICABLE = {}
 
@@ -144,7 +151,7 @@ def _usercall_inventory(fx, col):
 
 
 prop('C18', 'panics in user code leave the container consistent',
-     [_usercall_inventory, L.rule_ledger_unwind, T.rule_txn_closed, R.rule_cover_all],
+     [_usercall_inventory, L.rule_ledger_unwind, T.rule_txn_closed, R.rule_fast_window, R.rule_cover_all],
      'Decides: the complete list of user-code call sites reachable from the API (trait methods on type parameters, closure '
      'parameters, drops of generic values, RefCnt::dec) and, for each, that no raw (non-RAII) reference count is held '
      'across it: the ledger evaluated along every unwind edge must reach `resume` with balance 0 (LEDGER-UNWIND; direct '
@@ -170,12 +177,6 @@ _ORD_C11 = {'inuse-claim', 'inuse-cooldown', 'inuse-cooldown-check', 'writers-en
 
 def _ord_c11(fx, col):
     O.rule_ord_with_floors(fx, col, only_roles=_ORD_C11)
-
-
-def _raii_only(fx, col):
-    sub = Collector(col.cfg)
-    R.rule_cover_all(fx, sub)
-    col.obs.extend(o for o in sub.obs if o.rule in ('RAII-SPAN',) or (o.rule == 'FLOOR' and 'pay walks' in o.key) or o.rule == 'ANCHOR')
 
 
 prop('C11', 'thread churn is safe and bounded',
@@ -262,20 +263,34 @@ prop('C15', 'pointer-kind laws',
      'Numeric strong/weak counts of Arc/Rc/Weak themselves, ZST address distinctness, over-aligned pointees (facts about alloc; trusted).',
      configs=['D', 'A', 'W'])
 
+def _load_freshness(fx, col):
+    """the clauses of C03 that Cache::load / Access::load inherit through load()/load_full()"""
+    R.rule_publish_confirm(fx, col)
+    R.rule_intent_first(fx, col)
+    I.rule_addr_guard(fx, col)
+    I.rule_addr_before_gen(fx, col)
+    I.rule_own_storage(fx, col)
+    _raii_only(fx, col)
+
+
 prop('C16', 'Cache returns a current-or-newer value and retains at most one old value',
-     [A.rule_cache_shape],
+     [A.rule_cache_shape, _load_freshness, L.rule_ledger],
      'Decides CACHE-SHAPE: one cached field and no interior mutability; Cache::load (and Access for Cache, MapCache::load) '
      'reach revalidate on every path; the reload is control dependent on the UNEQUAL outcome of comparing the cached pointer '
      'with a load of the same container\'s cell; only that reload writes the cached value and the old one is dropped there; '
-     'the projection is applied to the reference of this very load; no unsafe in cache.rs.',
+     'the projection is applied to the reference of this very load; no unsafe in cache.rs. Imported: the provenance / '
+     'helper-validation clauses of C03 that the underlying load_full must satisfy for the cache to be fresh (PUBLISH-CONFIRM, '
+     'INTENT-FIRST, ADDR-GUARD, GEN-REVALIDATE, ADDR-BEFORE-GEN, OWN-STORAGE, RAII-SPAN) and LEDGER (one count held).',
      'Freshness / monotonicity over histories (with the shape fixed they reduce to C03 plus read-read coherence of one atomic).')
 
 prop('C17', 'Access / Map projections',
-     [A.rule_access_shape],
+     [A.rule_access_shape, _load_freshness, R.rule_cover_all, P.rule_never_freed],
      'Decides DEREF-PURE (no atomic operation and no load reachable from deref of any guard type, on the instantiated graph), '
      'GUARD-OWNED (MapGuard holds its inner guard by value; Map / AccessConvert / Constant hold no cell or cache), MUST-LOAD '
      '(every Access / DynAccess impl performs exactly one fresh inner load on every path; DynAccess boxes exactly that guard; '
-     'Constant returns its own value), and that access.rs contains no unsafe.',
+     'Constant returns its own value), and that access.rs contains no unsafe. Imported: the clauses of C03 / C01 that every '
+     'guard produced through Access inherits from the underlying load (provenance, helper validation, COVER-ALL, NEVER-FREED: '
+     '"keeps that snapshot alive").',
      'Projections supplied by the user.')
 
 prop('C20', 'serde support is transparent',
